@@ -540,6 +540,7 @@ func runC01(c *core.Ctx) {
 
 	// ---------------- more obligations ----------------
 	runC01More(k)
+	runC01ArgChecks(k)
 	runC01Choose(k)
 	runC02Facts(k) // a false fact is an unsafe accepted program: the fact discipline is a C01 mechanism too
 
